@@ -21,6 +21,7 @@
 //   reqtick started=<n> | webseed idx=<i> started=<n>  -> ws-ok
 //   peer dht=<0|1> ext=<0|1> v6seen=<0|1>              -> port=<n|none> ext0=<ver>,<port>,<v6> | ext0=none
 //   incoming                                           -> offered=<0|1> accepted=<0|1>
+//   incoming-swap   (the torrent is swapped in for an unproxied twin mid-handshake) -> offered=1 accepted=<0|1>
 //   realtick t= w= d= p= phase=<n>                     -> tr=<0|1> p4=<n> p6=<n>
 package main
 
@@ -336,6 +337,7 @@ type tcase struct {
 	conns    []net.Conn
 	remotes  []*remotePeer
 	nextIdx  uint32
+	accounted int // requests of this torrent seen by the web server and attributed to a step
 }
 
 var wsURL string
@@ -348,12 +350,15 @@ func infoOf(meta []byte) []byte {
 
 func newTorrent(proxied bool, loop bool, magnet bool) (*tcase, error) {
 	serial++
-	name := fmt.Sprintf("c18-%d", serial)
+	return newNamedTorrent(fmt.Sprintf("c18-%d", serial), proxied, loop, magnet, true)
+}
+
+func newNamedTorrent(name string, proxied bool, loop bool, magnet bool, register bool) (*tcase, error) {
 	proxy := ""
 	if proxied {
 		proxy = wsURL // the local server doubles as an HTTP proxy
 	}
-	meta := metainfo(name, wsURL, 3)
+	meta := metainfo(name, wsURL, 6)
 	t, err := tor.ReadTorrent(proxy, bytes.NewReader(meta))
 	if err != nil {
 		return nil, err
@@ -392,11 +397,13 @@ func newTorrent(proxied bool, loop bool, magnet bool) (*tcase, error) {
 	t.VerifSetTrackers(tiers)
 	tc.ctx, tc.cancel = context.WithCancel(context.Background())
 	wsMu.Lock()
-	wsCtl[name] = &wsControl{hold: make(chan struct{})}
+	if wsCtl[name] == nil {
+		wsCtl[name] = &wsControl{hold: make(chan struct{})}
+	}
 	wsMu.Unlock()
 	if !loop {
 		tor.VerifInit(t, 4096, uint64(serial))
-		if !tor.VerifAdd(t) {
+		if register && !tor.VerifAdd(t) {
 			return nil, errors.New("duplicate torrent")
 		}
 	}
@@ -433,6 +440,18 @@ func (tc *tcase) wsBusy() int {
 // then hangs in our server, so we wait until the server has seen as many requests as the
 // web seeds have fetches under way.  (No fetch finishes meanwhile: they are all held.)
 func (tc *tcase) fetchesStarted(c *vhlib.Ctx, f func()) int {
+	n := tc.fetchesStarted0(f)
+	_ = n
+	// every request the server has received for this torrent is accounted exactly once,
+	// in the step during (or just before) which it arrived - including one that was
+	// decided earlier and reaches the server only now
+	total := wsCount(tc.name)
+	d := total - tc.accounted
+	tc.accounted = total
+	return d
+}
+
+func (tc *tcase) fetchesStarted0(f func()) int {
 	before := wsCount(tc.name)
 	busy0 := tc.wsBusy()
 	fl0 := tc.t.VerifInFlight()
@@ -968,6 +987,84 @@ func stepIncoming(c *vhlib.Ctx, tc *tcase) {
 	c.Count("incoming", fmt.Sprintf("p=%v %s", tc.proxied, obs), true)
 }
 
+// stepIncomingSwap: an incoming handshake is under way for this info-hash while an
+// UNPROXIED torrent with that hash is listed; before the remote sends the last part of the
+// handshake (its peer id) that torrent is removed and this case's torrent is listed in its
+// place.  tor.Server looks the torrent up again after the handshake.
+func stepIncomingSwap(c *vhlib.Ctx, tc *tcase) {
+	tor.VerifDel(tc.t.Hash)
+	twin, err := newNamedTorrent(tc.name, false, false, false, true)
+	if err != nil || !bytes.Equal(twin.t.Hash, tc.t.Hash) {
+		tor.VerifAdd(tc.t)
+		c.Emit("incoming-swap", "error twin")
+		return
+	}
+	offered := false
+	for _, hp := range tor.VerifInfoHashes(false) {
+		if hp.First.Equal(tc.t.Hash) {
+			offered = true
+		}
+	}
+	a, b := net.Pipe()
+	tc.conns = append(tc.conns, a, b)
+	stop := make(chan struct{})
+	pumped := make(chan struct{})
+	go func() {
+		defer close(pumped)
+		for {
+			select {
+			case e := <-tc.t.Event:
+				tc.handle(e)
+			case <-stop:
+				return
+			}
+		}
+	}()
+	conn := addrConn{a, &net.TCPAddr{IP: net.IPv4(8, 8, 4, 4), Port: 50001}}
+	errc := make(chan error, 1)
+	go func() { errc <- tor.Server(conn, crypto.DefaultOptions(false, false)) }()
+	id := sha1.Sum([]byte("remote swap " + tc.name))
+	hs := append([]byte{19}, []byte("BitTorrent protocol")...)
+	hs = append(hs, 0, 0, 0, 0, 0, 0x10, 0, 0x05)
+	hs = append(hs, tc.t.Hash...)
+	b.SetDeadline(time.Now().Add(3 * time.Second))
+	b.Write(hs)
+	reply := make([]byte, 68)
+	_, rerr := io.ReadFull(b, reply) // the server has matched the hash against its snapshot
+	// the swap
+	tor.VerifDel(twin.t.Hash)
+	tor.VerifAdd(tc.t)
+	if rerr == nil {
+		b.Write(id[:])
+	}
+	go io.Copy(io.Discard, b)
+	select {
+	case err = <-errc:
+	case <-time.After(5 * time.Second):
+		err = errors.New("timeout")
+	}
+	time.Sleep(time.Millisecond)
+	for len(tc.t.Event) > 0 {
+		time.Sleep(200 * time.Microsecond)
+	}
+	close(stop)
+	<-pumped
+	select {
+	case <-twin.t.Done:
+	default:
+		close(twin.t.Done)
+	}
+	twin.cancel()
+	twin.releaseTrackers(false)
+	accepted := err == nil
+	obs := fmt.Sprintf("offered=%s accepted=%s", b01(offered), b01(accepted))
+	c.Emit("incoming-swap", obs)
+	if tc.proxied && accepted {
+		c.Violate("proxied-incoming-accepted:swap", "a proxied torrent accepted an incoming connection whose handshake had started while an unproxied torrent with the same info-hash was listed", c.Case())
+	}
+	c.Count("incoming-swap", fmt.Sprintf("p=%v %s", tc.proxied, obs), true)
+}
+
 // ---------------------------------------------------------------- cases
 func setDefaults(gt, gw bool, gd int) {
 	config.DefaultUseTrackers = gt
@@ -991,6 +1088,7 @@ func atoi(s string) int { n, _ := strconv.Atoi(s); return n }
 // runLines executes op lines (generated or replayed)
 func runLines(c *vhlib.Ctx, lines []string) {
 	var tc *tcase
+	skipping := false
 	defer func() {
 		if tc != nil {
 			tc.finish(c)
@@ -1005,6 +1103,13 @@ func runLines(c *vhlib.Ctx, lines []string) {
 		if ws[0] == "new" {
 			if tc != nil {
 				tc.finish(c)
+				tc = nil
+			}
+			if len(c.Rep.Violations) >= 30 {
+				skipping = true // a broken tree: further cases add only watchdog time
+			}
+			if skipping {
+				continue
 			}
 			c.NewCase()
 			setDefaults(m["gt"] == "1", m["gw"] == "1", atoi(m["gd"]))
@@ -1021,8 +1126,8 @@ func runLines(c *vhlib.Ctx, lines []string) {
 			}
 			continue
 		}
-		if ws[0] == "realtick" {
-			continue // produced by the realtick phase only
+		if ws[0] == "realtick" || skipping {
+			continue // realtick lines are produced by the realtick phase only
 		}
 		if tc == nil {
 			c.Emit(l, "bad-op")
@@ -1053,6 +1158,8 @@ func runLines(c *vhlib.Ctx, lines []string) {
 			stepPeer(c, tc, m["dht"] == "1", m["ext"] == "1")
 		case "incoming":
 			stepIncoming(c, tc)
+		case "incoming-swap":
+			stepIncomingSwap(c, tc)
 		default:
 			c.Emit(l, "bad-op")
 		}
@@ -1081,6 +1188,10 @@ func genCase(c *vhlib.Ctx, p bool, g conf, seq []conf, full bool, magnet bool) [
 	ls = append(ls, "want", "reqtick")
 	probe := func() {
 		ls = append(ls, "announce v6="+b01(c.R.Bool()), "slowtick stale="+b01(c.R.Chance(40)), "want", "reqtick", "webseed")
+		if c.R.Chance(30) {
+			// a burst: as many transfers to the one web-seed host as the web seeds allow
+			ls = append(ls, "webseed", "webseed", "webseed", "webseed")
+		}
 	}
 	probe()
 	metaAt := -1
@@ -1104,7 +1215,7 @@ func genCase(c *vhlib.Ctx, p bool, g conf, seq []conf, full bool, magnet bool) [
 	}
 	ls = append(ls, "settle fail="+b01(c.R.Bool()), "slowtick stale=0", "settle fail="+b01(c.R.Bool()))
 	if full {
-		ls = append(ls, "incoming")
+		ls = append(ls, "incoming", "incoming-swap")
 	}
 	return ls
 }
